@@ -13,6 +13,8 @@ require (
 	aead.dev/minisign v0.3.0 // indirect
 	filippo.io/age v1.2.0 // indirect
 	github.com/ProtonMail/go-crypto v1.0.0 // indirect
+	github.com/ProtonMail/go-mime v0.0.0-20230322103455-7d82a3887f2f // indirect
+	github.com/ProtonMail/gopenpgp/v2 v2.7.5 // indirect
 	github.com/andybalholm/brotli v1.1.0 // indirect
 	github.com/cloudflare/circl v1.3.9 // indirect
 	github.com/cosnicolaou/pbzip2 v1.0.3 // indirect
@@ -26,6 +28,7 @@ require (
 	github.com/klauspost/pgzip v1.2.6 // indirect
 	github.com/mattetti/filebuffer v1.0.1 // indirect
 	github.com/pierrec/lz4/v4 v4.1.21 // indirect
+	github.com/pkg/errors v0.9.1 // indirect
 	github.com/remyoudompheng/bigfft v0.0.0-20230129092748-24d4a6f8daec // indirect
 	github.com/rubenv/sql-migrate v1.7.0 // indirect
 	github.com/spf13/cast v1.6.0 // indirect
